@@ -90,6 +90,16 @@ def ref_agg(sections, metric):
 
 # ---- implementation side -------------------------------------------------------------------------------------------
 class Writer(object):
+  _inst = {}
+
+  @classmethod
+  def get(cls):
+    if cls._inst.get('pid') != os.getpid():
+      cls._inst.clear()
+      cls._inst['pid'] = os.getpid()
+      cls._inst['w'] = cls()
+    return cls._inst['w']
+
   def __init__(self):
     settings = env.boot()
     env.private_conf()
@@ -174,6 +184,123 @@ def shard(arg):
   return n, len(sigs), bad
 
 
+# ---- the periodic reload racing with the create loop (thrx) -------------------------------------------------------
+class ReloadRace(object):
+  """Writer thread: writeCachedDataPoints() creating one new metric.  Reactor thread: the 60 s reload tasks
+  (reloadStorageSchemas / reloadAggregationSchemas) after the files were edited.  Whatever the interleaving,
+  the metric must be created per the OLD files or per the NEW files (each lookup is one or the other)."""
+  horizon = 6000
+  opcode_funcs = ()
+
+  def __init__(self, p):
+    self.p = p
+
+  def visible(self):
+    from .. import writerh
+    wpath = os.path.join(env.REPO, 'lib', 'carbon', 'writer.py')
+    funcs = {'writeCachedDataPoints', 'reloadStorageSchemas', 'reloadAggregationSchemas'}
+    return {wpath: {'funcs': funcs, 'lines': writerh.visible_lines(wpath, funcs, r'SCHEMAS|schema|Schemas')}}
+
+  def setup(self, s):
+    from .. import thrx
+    p = self.p
+    self.w = Writer.get()
+    self.w.load(p['old'][0], p['old'][1])
+    # the operator edits the files; the next reload tick will pick them up
+    with open(os.path.join(self.w.conf, 'storage-schemas.conf'), 'w') as f:
+      f.write(render(p['new'][0]))
+    with open(os.path.join(self.w.conf, 'storage-aggregation.conf'), 'w') as f:
+      f.write(render(p['new'][1]))
+    self.w.db.files.clear()
+    del self.w.db.log[:]
+    self.lock = thrx.replace_locks(self.w.cache, s)
+    self.w.cache.store(p['metric'], (1, 1.0))
+    self.exc = []
+    s.spawn('writer', self.writer_body)
+    s.spawn('reactor', self.reactor_body)
+    self.sched = s
+
+  def teardown(self, s):
+    import threading
+    self.w.cache.lock = threading.Lock()
+    self.w.cache.clear()
+    self.w.cache.size = 0
+    self.w.cache.new_metrics.clear()
+
+  def writer_body(self):
+    try:
+      self.w.writer.writeCachedDataPoints()
+    except Exception as e:   # noqa
+      self.exc.append(repr(e))
+
+  def reactor_body(self):
+    self.sched.point(('reload-tick',))
+    try:
+      self.w.writer.reloadStorageSchemas()
+      self.w.writer.reloadAggregationSchemas()
+    except Exception as e:   # noqa
+      self.exc.append(repr(e))
+
+  def outcome(self, s):
+    return (tuple((e[0], e[1], repr(e[4:])) for e in self.w.db.log if e[0] == 'create'), tuple(self.exc))
+
+  def obligations(self, s):
+    return {}
+
+  def verdict(self, s):
+    p = self.p
+    if self.exc:
+      return ('reload-race:exception', 'raised %s' % self.exc[0])
+    creates = [e for e in self.w.db.log if e[0] == 'create']
+    if len(creates) != 1:
+      return ('reload-race:no-create', 'expected one create(), backend saw %r' % (creates,))
+    e = creates[0]
+    try:
+      got_ret = [tuple(a) for a in e[4]]
+    except TypeError:
+      got_ret = [repr(a) for a in e[4]]
+    got_agg = (e[5], e[6])
+    ok_ret = [ref_schema(p['old'][0], p['metric']), ref_schema(p['new'][0], p['metric'])]
+    ok_agg = [ref_agg(p['old'][1], p['metric']), ref_agg(p['new'][1], p['metric'])]
+    if got_ret not in ok_ret:
+      return ('reload-race:retentions', 'metric %r created with retentions %r while a reload ran; the old file gives %r, the new file %r'
+              % (p['metric'], got_ret, ok_ret[0], ok_ret[1]))
+    if got_agg not in ok_agg:
+      return ('reload-race:aggregation', 'metric %r created with (xff, method) %r while a reload ran; the old file gives %r, the new '
+              'file %r' % (p['metric'], got_agg, ok_agg[0], ok_agg[1]))
+    return None
+
+
+def make_race(p):
+  return ReloadRace(p)
+
+
+def race_job(arg):
+  from .. import thrx
+  p, bounds = arg
+  env.boot()
+  Writer.get()
+  return thrx.explore(make_race, p, bounds, fanout=10 ** 9)
+
+
+def race_params():
+  S, A = SCHEMA_POOL, AGG_POOL
+  out = []
+  pairs = [
+    ([S[1], S[0]], [S[2]]),            # a leading non-matching section removed, another matching one takes over
+    ([S[0]], [S[5], S[0], S[2]]),       # sections inserted above
+    ([S[1], S[5], S[0]], [S[0], S[5]]),
+    ([S[2], S[0]], [S[0], S[2]]),       # reordered
+    ([S[3], S[4], S[0]], [S[2]]),       # ignored sections in front
+  ]
+  aggs = [([A[0], A[1]], [A[1]]), ([A[1]], [A[3], A[0], A[1]]), ([A[4], A[0], A[1]], [A[1], A[0]])]
+  for i, (so, sn) in enumerate(pairs):
+    ao, an = aggs[i % len(aggs)]
+    for metric in ('a.b', 'a.x'):
+      out.append({'old': (so, ao), 'new': (sn, an), 'metric': metric})
+  return out
+
+
 def cases(ctx):
   ks = ctx.pick(3, 4)
   ka = ctx.pick(2, 3)
@@ -207,7 +334,16 @@ def run(ctx):
   # self-check of the reference on the documented examples
   assert ref_retention('10s:6h') == (10, 2160) and ref_retention('60:1440') == (60, 1440) and ref_retention('7s:100s') == (7, 14)
   assert ref_retention('1d:1y') == (86400, 365) and ref_retention('1h:2w') == (3600, 336)
-  ctx.add(evaluations=n, distinct_nontrivial=distinct, exhaustive=True, files=len(cs),
+  rps = race_params()
+  rres = core.pmap(race_job, [(p, (ctx.pick(1, 2), 0)) for p in rps], fresh=True)
+  rexec = 0
+  for p, st in zip(rps, rres):
+    rexec += st['executions']
+    for key, what, rep in st['violations']:
+      ctx.violation(key, '%s | old schema sections %r new %r' % (what, [x[0] for x in p['old'][0]], [x[0] for x in p['new'][0]]),
+                    {'race': p, 'choices': rep['choices']})
+  n += rexec
+  ctx.add(evaluations=n, distinct_nontrivial=distinct, exhaustive=True, files=len(cs), reload_race_executions=rexec,
           rule='ordered selections of <=%d of 6 schema sections (x a fixed aggregation file), of <=%d of 5 aggregation sections '
                '(x a fixed schema file) and a small cross product, x 6 metric names; distinct_nontrivial = distinct '
                '(schema section order, aggregation section order, metric) cases that passed' % (ctx.pick(3, 4), ctx.pick(2, 3)))
@@ -219,6 +355,18 @@ def run(ctx):
 def replay(path):
   body = json.load(open(path))
   rep = body['replay']
+  if 'race' in rep:
+    from .. import thrx
+    p = rep['race']
+    p['old'] = tuple([(n, dict(o)) for n, o in part] for part in p['old'])
+    p['new'] = tuple([(n, dict(o)) for n, o in part] for part in p['new'])
+    env.boot()
+    Writer.get()
+    s, h = thrx.run_one(make_race, p, rep['choices'])
+    v = h.verdict(s)
+    print('creates:', [e for e in h.w.db.log if e[0] == 'create'])
+    print('oracle:', v or 'holds')
+    return 1 if v else 0
   ss = [(n, dict(o)) for n, o in rep['schemas']]
   ag = [(n, dict(o)) for n, o in rep['aggregation']] if rep['aggregation'] is not None else None
   w = Writer()
